@@ -237,10 +237,19 @@ def case(root, g, ops, tool, sel, state_kind):
             open(sim.path("build.ninja"), "w").write(graphs.real_manifest(sim.g, sim.vtool))
             if any(sim.unordered_hidden(e) for e in sim.cmd_edges()):
                 return None, labels
-        if state_kind == 'dirty':
+        if state_kind in ('dirty', 'dirty_straydf'):
             for s in sim.g['srcs'][:2]:
                 if not s.startswith('ddsrc'):
                     sim.write(s, sim.new_content(s, 5))
+        if state_kind == 'dirty_straydf':
+            # a depfile that a deps=gcc statement left behind (ninja died before reading it, or ran with -d keepdepfile)
+            for e in sim.cmd_edges():
+                if e.get('deps') == 'gcc':
+                    dp = sim.path(models.depfile_path(e))
+                    os.makedirs(os.path.dirname(dp), exist_ok=True)
+                    with open(dp, "w") as f:
+                        f.write("%s: %s\n" % (key(e), " ".join(e['exp'][:1] + list(e.get('hidden', [])))))
+                    labels.add('stray_depfile_of_deps_statement')
         open(sim.path("build.ninja"), "w").write(graphs.real_manifest(sim.g, sim.vtool))
         if any(e.get('dd') for e in sim.g['edges']) and state_kind == 'fresh':
             return None, labels      # "graphs without pending dyndep files"
@@ -341,7 +350,7 @@ def worker(widx, n_examples, n_compdb):
         @settings(max_examples=n_examples, deadline=None, database=None, suppress_health_check=list(HealthCheck),
                   phases=[Phase.generate, Phase.shrink], verbosity=Verbosity.quiet, report_multiple_bugs=False)
         @given(graphs.graphs(max_edges=6, features=feats), graphs.histories(max_ops=4, with_failures=True), st.sampled_from(TOOLS), st.integers(0, 40),
-               st.sampled_from(['built', 'dirty', 'dirty', 'fresh']))
+               st.sampled_from(['built', 'dirty', 'dirty', 'fresh', 'dirty_straydf']))
         def test(g, ops, tool, sel, state_kind):
             c = dict(g=g, ops=ops, tool=tool, sel=sel, state=state_kind)
             dg = common.digest(c)
@@ -416,7 +425,7 @@ def replay_regressions(ck):
 def run(tier):
     thorough = tier == 'thorough'
     ck = common.Check(PROP, tier, "exploration",
-                      "E2E with the real binary: generated graph (<=6 statements) x history (incl. failing builds) x tree state {fresh, built, dirty} x one "
+                      "E2E with the real binary: generated graph (<=6 statements) x history (incl. failing builds) x tree state {fresh, built, dirty, dirty with depfiles left behind by deps=gcc statements} x one "
                       "of 14 tool invocations on a generated target subset; oracle: vtool trace empty, every file's content and mtime and both logs' meaning "
                       "unchanged, listing of -n -v / -t commands equals the reference model's run set / the from-scratch closure in dependency order, compdb "
                       "output accepted by a strict RFC 8259 recogniser, and the real build that follows is checked by the C01/C03 oracles. compdb part: "
